@@ -5,6 +5,7 @@
 -/
 import NngModel.Proofs.BusStep
 import NngModel.Spec.Bus
+import NngModel.Generated.C09
 namespace Nng.C09
 open Nng Nng.Proto Nng.Bus
 
